@@ -188,7 +188,7 @@ type Case struct {
 	Arrive string `json:"arrive,omitempty"`
 	// ArriveStep: the producer step (1-based) inside whose CalculateBlock the transaction arrives (0 = 1)
 	ArriveStep int `json:"arrive_step,omitempty"`
-	Steps  int    `json:"steps,omitempty"`
+	Steps      int `json:"steps,omitempty"`
 }
 
 var sites = []string{"SortUnconfirmedTx#1", "TopSortDFS#1", "TopSortDFS#2"}
